@@ -53,7 +53,7 @@ for name, f, old, new, k, units in M:
         res = []
         for u in units:
             r = vrun.run_unit(u, '/tmp/vx/mut_' + u)
-            res.append('%s=%s%s' % (u, r['status'], (' [' + ','.join(sorted(set(x.get('function') or '?' for x in r.get('failed', [])))) [:80] + ']') if r['status'] == 'fail' else ''))
+            res.append('%s=%s%s%s' % (u, r['status'], ('(hint-only)' if r.get('hint_only') else ''), (' [' + ','.join(sorted(set(x.get('function') or '?' for x in r.get('failed', [])))) [:80] + ']') if r['status'] == 'fail' else ''))
         rows.append((name, ' '.join(res), ''))
     finally:
         open(p, 'w').write(src)
